@@ -27,7 +27,7 @@ RULE = ('R-produced messages (random templates with operators, bitmap tails, att
         'replication factors, 221, zero-count replications, flag tables, hostile strings with quotes, '
         'backslashes, blanks, 8-bit characters and text that resembles the text formats\' own syntax) and every '
         'sample file; non-trivial = >= 3 values and (a replication, an attribute, a string or an operator); '
-        'distinct by SHA-1 of the message bytes')
+        'distinct by SHA-1 of the message bytes; open-construct shapes, value-less templates, same-layout-different-bitmap subsets; virtual attributes of each subset compared with that subset\'s flat links; command line also with -t <tables root>')
 ASSUMPTIONS = ['comparison after a JSON round trip with the repository\'s EntityEncoder (bytes -> latin-1 str), as the CLI does',
                'bytes objects returned by the text converters are identified with their latin-1 str',
                'messages whose decode raises are out of scope (property quantifies over decodable messages)']
